@@ -56,26 +56,47 @@ def verify(cfg, crate, body, I, rep, key):
     rep.ob("C06.verify", key + "|success-site", len(succ) >= 1, "the accepted result is constructed in this function", found=len(succ))
     for sb in succ:
         rep.ob("C06.verify", key + "|dominates-success", vb in dom[sb], "signature verification dominates the construction of the accepted result (no path accepts without verifying)", found="bb%d !dom bb%d" % (vb, sb), sp=vs[0][1].get("sp"))
-    # every other use of the parsed request happens after verification: calls whose receiver chain includes the parsed csr
-    first_use = None
+    # every use of the *parsed request* happens after verification.  The raw parse Result (before `?`), however it is
+    # massaged by Result adaptors, is not the parsed request.
     order = [(c, a, n) for c, a, n, cond, f in I.calls if f == FN]
     idx_v = next((i for i, (c, a, n) in enumerate(order) if isv(c)), None)
-    parsed = lambda a: any(isinstance(core(x), (CallV,)) or True for x in a) and any("X509CertificationRequest" in r and "from_der" in r for x in a for r in roots(x))
-    early = [c for i, (c, a, n) in enumerate(order) if idx_v is not None and i < idx_v and parsed(a) and not isv(c) and not c.endswith(("map_err", "from_der"))]
+
+    def raw_result(x):
+        x0 = core(x)
+        if isinstance(x0, CallV) and "X509CertificationRequest" in x0.callee and x0.callee.endswith("from_der"):
+            return True
+        return isinstance(x0, CallV) and x0.callee.startswith("std::result::Result::") and bool(x0.args) and raw_result(x0.args[0]) and isinstance(x, (CallV, Via)) and not _has_sel(x)
+
+    def parsed(a):
+        return any((not raw_result(x)) and any("X509CertificationRequest" in r and "from_der" in r for r in roots(x)) for x in a)
+    early = [c for i, (c, a, n) in enumerate(order) if idx_v is not None and i < idx_v and parsed(a) and not isv(c)]
     rep.ob("C06.verify", key + "|first-use", idx_v is not None and not early, "nothing of the parsed request is used before its signature is verified", found=early)
-    # `?` on the verification result, unconditionally
-    hv = [(n, ps) for n, ps in common.hir_walk_p(body["hir"]) if n["k"] == "MethodCall" and isv(n.get("callee") or "")]
-    how = c01._consumed(hv[0][0], hv[0][1]) if hv else None
-    # verify(..).map_err(..)?  -> consumed through map_err receiver chain
-    rep.ob("C06.verify", key + "|propagated", how == "?", "a failed verification is propagated with `?` (the request is rejected)", found=how, sp=hv[0][0].get("sp") if hv else None)
-    cond = next((cnd for c, a, n, cnd, f in I.calls if isv(c) and f == FN), None)
-    rep.ob("C06.verify", key + "|unconditional", cond is True, "verification is unconditional", found=F.show(cond) if cond is not None else None)
-    # from_pem only delegates
-    fp = "csr::CertificateSigningRequestParams::from_pem"
-    if fp in crate.bodies:
-        I2 = Interp(crate)
-        v = I2.run_fn(fp)["value"]
-        rep.ob("C06.verify", "%s|%s" % (cfg, fp), FN in calls_of(v) and not [1 for sv, n, f, c in I2.structs if (sv.adt or "").endswith("CertificateSigningRequestParams")], "from_pem only delegates to from_der", found=core(v).r()[:160])
+    # a failed verification leaves the function with an error: on every path on which verify_signature(..) is Err the
+    # function returns Err - whether that is written `?`, `map_err(..)?`, `if v.is_err() { return Err }` or a match
+    vcalls = [(c, a, n, cond) for c, a, n, cond, f in I.calls if f == FN and isv(c)]
+    ok_prop = False
+    found = None
+    if len(vcalls) == 1:
+        c_, a_, n_, cond_v = vcalls[0]
+        vp = CallV(c_, a_).r()
+        err_case = ("atom", ("variant", vp, "Err"))
+        exits = [cnd for cnd, v, nn, f in I.fails if f == FN]
+        for tv, tn, tf, tc in I.tries:
+            if tf == FN:
+                exits.append(F.And(tc, F.Not(I._try_success(tv, tn))))
+        goal = F.Or(*exits) if exits else False
+        ces = F.counterexamples(F.And(cond_v, err_case), goal, "implies") if goal is not False else [{}]
+        # the one-hot group makes `vp is Ok` false whenever `vp is Err` holds
+        ok_prop = not ces
+        found = "verify Err => exit" if ok_prop else "a path continues although verify_signature(..) is Err: %s" % (F.show_asg(ces[0])[:200] if ces and ces[0] else "no error exit at all")
+    rep.ob("C06.verify", key + "|propagated", ok_prop, "a failed verification is propagated (the request is rejected): whenever verify_signature returns Err the function returns Err", found=found, sp=vcalls[0][2].get("sp") if vcalls else None)
+
+
+def _has_sel(x):
+    from interp import Sel
+    while isinstance(x, Via):
+        x = x.inner
+    return isinstance(x, Sel)
 
 
 def bind(cfg, crate, I, rep, key):
